@@ -1,4 +1,150 @@
-import CosetModel.Api
+/-
+  C10 — COSE_Key / COSE_KeySet: accepted only if well-formed, parameters map to fields.
+  Proved: "accepted ⇒ well-formed ∧ fields = wire" in full, key-set iff, mandatory key type; the converse direction for single keys
+  is covered by the correspondence stream (named in MANIFEST.level_note).
+-/
+import CosetProofs.KeyFields
+import CosetProofs.Shapes
 namespace Coset.Props.C10
+open Coset Coset.Spec
+
+/-- inserting into the ordered operation set: exactly one more element, same members plus the new one. -/
+theorem setInsert_some {α : Type} (cmp : α → α → Res Ordering) (s : List α) (x : α) (s' : List α)
+    (h : setInsert cmp s x = .ok (some s')) : s'.length = s.length + 1 ∧ ∀ y, y ∈ s' ↔ (y = x ∨ y ∈ s) := by
+  induction s generalizing s' with
+  | nil => simp [setInsert] at h; subst h; simp
+  | cons z zs ih =>
+    simp only [setInsert] at h
+    cases hc : cmp x z with
+    | ok o =>
+      simp only [hc] at h
+      cases o with
+      | eq => simp at h
+      | lt => simp at h; subst h; simp
+      | gt =>
+        simp only [] at h
+        cases hr : setInsert cmp zs x with
+        | ok r =>
+          simp only [hr] at h
+          cases r with
+          | none => simp at h
+          | some r' =>
+            simp at h; subst h
+            obtain ⟨h1, h2⟩ := ih r' hr
+            refine ⟨by simp [h1], ?_⟩
+            intro y; simp [h2]; constructor
+            · rintro (h | h | h) <;> simp [h]
+            · rintro (h | h | h) <;> simp [h]
+        | err e => simp [hr] at h
+        | panic p => simp [hr] at h
+    | err e => simp [hc] at h
+    | panic p => simp [hc] at h
+
+/-- `key_ops`: every element is a registered-integer or text operation, no operation repeats, and the field is their set. -/
+theorem key_ops_set (a : List Value) : ∀ (s0 s : List RegLabel), keyOpsLoop a s0 = .ok s →
+    ∃ ops, mapRes (RegLabel.fromValue Reg.keyOperation) a = .ok ops ∧ s.length = s0.length + a.length ∧
+      ∀ y, y ∈ s ↔ (y ∈ ops ∨ y ∈ s0) := by
+  induction a with
+  | nil => intro s0 s h; simp [keyOpsLoop] at h; subst h; exact ⟨[], rfl, by simp, by simp⟩
+  | cons v vs ih =>
+    intro s0 s h
+    simp only [keyOpsLoop] at h
+    cases hv : RegLabel.fromValue Reg.keyOperation v with
+    | ok op =>
+      simp only [hv] at h
+      cases hi : setInsert (RegLabel.cmp Reg.keyOperation) s0 op with
+      | ok r =>
+        simp only [hi] at h
+        cases r with
+        | none => simp at h
+        | some s1 =>
+          simp only [] at h
+          obtain ⟨ops, ho, hl, hm⟩ := ih s1 s h
+          obtain ⟨l1, m1⟩ := setInsert_some _ s0 op s1 hi
+          refine ⟨op :: ops, ?_, by simp [hl, l1]; omega, ?_⟩
+          · rw [mapRes_cons_ok]; exact ⟨op, ops, hv, ho, rfl⟩
+          · intro y; rw [hm, m1]; simp; constructor
+            · rintro (h | h | h) <;> simp [h]
+            · rintro ((h | h) | h) <;> simp [h]
+      | err e => simp [hi] at h
+      | panic p => simp [hi] at h
+    | err e => simp [hv] at h
+    | panic p => simp [hv] at h
+
+/-- C10 (⇒): whatever `CoseKey::from_cbor_value` accepts is a map with pairwise distinct labels containing a key type that is not
+    the reserved value, each common parameter present has its shape, and the result's fields are exactly the wire values;
+    all other pairs are kept unchanged in wire order. -/
+theorem accepted_is_wellformed (v : Value) (k : CoseKey) (hok : CoseKey.fromValue v = .ok k) :
+    ∃ m ls, v = .map m ∧ keyLabels m = .ok ls ∧ ls.Nodup ∧ KeyOf keyOpsLoop (ls.zip (m.map (·.2))) CoseKey.default k ∧
+      k.kty ≠ .assigned ktyReservedIdx ∧ (∃ w, lookupL (.int 1) (ls.zip (m.map (·.2))) = some w) := by
+  cases v with
+  | map m =>
+    simp only [CoseKey.fromValue, tryAsMap] at hok
+    cases hl : keyLoop m CoseKey.default [] with
+    | ok k1 =>
+      simp only [hl] at hok
+      by_cases hr : k1.kty = .assigned ktyReservedIdx
+      · simp [hr] at hok
+      · simp only [hr, if_false] at hok; simp at hok; subst hok
+        rw [keyLoop_eq_gen] at hl
+        obtain ⟨ls, hls, hfr, hfold⟩ := (genLoop_ok_iff Label.fromValue Label.cmp keyStep (fun _ => True) label_loop_hyps.1 label_loop_hyps.2
+          m CoseKey.default k1 [] (by simp)).mp hl
+        have hlen : ls.length = m.length := by
+          have : ∀ (xs : List Value) (ys : List Label), mapRes Label.fromValue xs = .ok ys → ys.length = xs.length := by
+            intro xs; induction xs with
+            | nil => intro ys h; simp [mapRes] at h; subst h; rfl
+            | cons x xs ih => intro ys h; rw [mapRes_cons_ok] at h; obtain ⟨y, ys', _, h2, rfl⟩ := h; simp [ih ys' h2]
+          simpa using this _ _ hls
+        have hnd : ((ls.zip (m.map (·.2))).map (·.1)).Nodup := by
+          rw [List.map_fst_zip (by simp [hlen])]; exact hfr.1
+        have ko := fold_keyOf _ _ _ hnd hfold
+        refine ⟨m, ls, rfl, hls, hfr.1, ko, hr, ?_⟩
+        cases hlk : lookupL (.int 1) (ls.zip (m.map (·.2))) with
+        | some w => exact ⟨w, rfl⟩
+        | none =>
+          have := ko.kty
+          rw [hlk] at this
+          exact absurd this hr
+    | err e => simp [hl] at hok
+    | panic p => simp [hl] at hok
+  | _ => simp [CoseKey.fromValue, tryAsMap, typeError] at hok
+
+/-- a missing key type and a reserved key type (`1: 0`) are both rejected; a text key type is never confused with the default. -/
+example : (CoseKey.fromValue (.map [])).isOk = false ∧ (CoseKey.fromValue (.map [(.int 1, .int 0)])).isOk = false ∧
+    (CoseKey.fromValue (.map [(.int 1, .text [])])).isOk = true ∧ (CoseKey.fromValue (.map [(.int 1, .int 4)])).isOk = true := by decide +kernel
+
+/-- COSE_KeySet: accepted iff an array all of whose elements are acceptable keys, yielding them in order. -/
+theorem keyset_iff (v : Value) (ks : List CoseKey) :
+    CoseKeySet.fromValue v = .ok ks ↔ ∃ a, v = .array a ∧ mapRes CoseKey.fromValue a = .ok ks :=
+  tryAsArrayThenConvert_ok CoseKey.fromValue v ks
+
+theorem mapRes_length {α β : Type} (f : α → Res β) : ∀ (xs : List α) (ys : List β), mapRes f xs = .ok ys → ys.length = xs.length := by
+  intro xs; induction xs with
+  | nil => intro ys h; simp [mapRes] at h; subst h; rfl
+  | cons x xs ih => intro ys h; rw [mapRes_cons_ok] at h; obtain ⟨y, ys', _, h2, rfl⟩ := h; simp [ih ys' h2]
+
+theorem keyset_elementwise (a : List Value) (ks : List CoseKey) (h : mapRes CoseKey.fromValue a = .ok ks) :
+    ks.length = a.length ∧ ∀ i (hi : i < a.length) (hk : i < ks.length), CoseKey.fromValue a[i] = .ok ks[i] := by
+  refine ⟨mapRes_length _ _ _ h, ?_⟩
+  induction a generalizing ks with
+  | nil => intro i hi; simp at hi
+  | cons x xs ih =>
+    rw [mapRes_cons_ok] at h
+    obtain ⟨y, ys, hy, hys, rfl⟩ := h
+    intro i hi hk
+    cases i with
+    | zero => simpa using hy
+    | succ j => simpa using ih ys hys j (by simpa using hi) (by simpa using hk)
+
+/-- the outcome depends only on the CBOR data-model value. -/
+theorem depends_only_on_value (b1 b2 : Bytes) (v : Value) (h1 : readToValue b1 = .ok v) (h2 : readToValue b2 = .ok v) :
+    fromSlice CoseKey.fromValue b1 = fromSlice CoseKey.fromValue b2 := by simp [fromSlice, h1, h2]
+
+#print axioms setInsert_some
+#print axioms key_ops_set
+#print axioms accepted_is_wellformed
+#print axioms keyset_iff
+#print axioms keyset_elementwise
+#print axioms depends_only_on_value
 
 end Coset.Props.C10
